@@ -1,47 +1,48 @@
 ---------------------------- MODULE HmmCacheTrace ----------------------------
 \* Trace validation of the history part of C13.  Every event recorded by
-\* harness/drv_hmm.cpp --mode cache is one action of HmmCache:
-\*   Reset   k = instance kind                    -> initial state of that kind
-\*   Update / SetBps  ver = the driver's version counter after the call
+\* harness/drv_hmm.cpp --mode cache is one action of HmmCache on object o:
+\*   Reset   k = instance kind                    -> a single object 1 of that kind
+\*   Update / SetBps  ver = the driver's version counter of o after the call
+\*   Copy    o -> o2 (how = clone | ctor | assign), Drop o
 \*   QLogLik QPost QSite QD1 QD2 QTPij QTMat QTEq
-\*           same = the versions v for which a FRESH object of the same class,
-\*           built at the parameter values (and break points) of version v and
-\*           asked only this question, gives the identical answer (same outcome
-\*           kind, every number bit for bit)
+\*           same = the versions v of o's history for which a FRESH object of the
+\*           same class, built at the parameter values (and break points) of
+\*           version v and asked only this question, gives the identical answer
+\*           (same outcome kind, every number bit for bit)
 \* The model answers every query with the stamp of the version it was computed
 \* from; the implementation conforms iff that stamp is one of the versions that
 \* explain the observed answer.  Because the design keeps Fresh, this is
-\* "the current version explains the answer" - nothing is asserted about which
-\* stale version might explain a wrong one, and nothing about the outcome kind
+\* "the object's current version explains the answer" - nothing is asserted about
+\* which stale version might explain a wrong one, and nothing about the outcome kind
 \* (refusing or answering is the class's choice, as long as a fresh object of the
 \* class makes the same choice at the same parameters).
-\* mem = no heap block was overrun since the start of the run.
+\* mem = no heap block was overrun since the start of the scenario.
 EXTENDS HmmCache, TraceLib
 
 ToSet(s) == {s[i] : i \in DOMAIN s}
 
-Explained == ans'.st \in ToSet(Ev.same) /\ Ev.ver = ver /\ Ev.mem
+Explained == /\ obj'[Ev.o].ans.st \in ToSet(Ev.same)
+             /\ Ev.ver = obj[Ev.o].ver /\ Ev.mem
 
 TReset   == /\ IsEvent("Reset")
             /\ Ev.k \in LikKinds \cup TmKinds
-            /\ kind' = Ev.k /\ ver' = 0 /\ fwd' = 0
-            /\ back' = [ok |-> FALSE, st |-> Garbage]
-            /\ d1' = None /\ d2' = None /\ em1' = None /\ em2' = None
-            /\ flag' = FALSE /\ pij' = Garbage /\ eq' = Garbage /\ ans' = None
+            /\ obj' = [o \in {1} |-> InitRec(Ev.k, 1)]
 
-TUpdate  == IsEvent("Update") /\ Update /\ Ev.r = "ok" /\ Ev.ver = ver' /\ Ev.mem
-TSetBps  == IsEvent("SetBps") /\ SetBps /\ Ev.r = "ok" /\ Ev.ver = ver' /\ Ev.mem
-TQLogLik == IsEvent("QLogLik") /\ QLogLik /\ Explained
-TQPost   == IsEvent("QPost") /\ QPosterior("Post") /\ Explained
-TQSite   == IsEvent("QSite") /\ QPosterior("Site") /\ Explained
-TQD1     == IsEvent("QD1") /\ Ev.var \in Vars \cup BadVars /\ QD1(Ev.var) /\ Explained
-TQD2     == IsEvent("QD2") /\ Ev.var \in Vars \cup BadVars /\ QD2(Ev.var) /\ Explained
-TQTPij   == IsEvent("QTPij") /\ TQPij /\ Explained
-TQTMat   == IsEvent("QTMat") /\ TQMat /\ Explained
-TQTEq    == IsEvent("QTEq") /\ TQEq /\ Explained
+TUpdate  == IsEvent("Update") /\ Update(Ev.o) /\ Ev.r = "ok" /\ Ev.ver = obj'[Ev.o].ver /\ Ev.mem
+TSetBps  == IsEvent("SetBps") /\ SetBps(Ev.o) /\ Ev.r = "ok" /\ Ev.ver = obj'[Ev.o].ver /\ Ev.mem
+TCopy    == IsEvent("Copy") /\ Copy(Ev.o, Ev.o2) /\ Ev.r = "ok" /\ Ev.mem
+TDrop    == IsEvent("Drop") /\ Drop(Ev.o) /\ Ev.mem
+TQLogLik == IsEvent("QLogLik") /\ QLogLik(Ev.o) /\ Explained
+TQPost   == IsEvent("QPost") /\ QPosterior(Ev.o, "Post") /\ Explained
+TQSite   == IsEvent("QSite") /\ QPosterior(Ev.o, "Site") /\ Explained
+TQD1     == IsEvent("QD1") /\ Ev.var \in Vars \cup BadVars /\ QD1(Ev.o, Ev.var) /\ Explained
+TQD2     == IsEvent("QD2") /\ Ev.var \in Vars \cup BadVars /\ QD2(Ev.o, Ev.var) /\ Explained
+TQTPij   == IsEvent("QTPij") /\ TQPij(Ev.o) /\ Explained
+TQTMat   == IsEvent("QTMat") /\ TQMat(Ev.o) /\ Explained
+TQTEq    == IsEvent("QTEq") /\ TQEq(Ev.o) /\ Explained
 
-TraceNext == TReset \/ TUpdate \/ TSetBps \/ TQLogLik \/ TQPost \/ TQSite \/ TQD1 \/ TQD2
+TraceNext == TReset \/ TUpdate \/ TSetBps \/ TCopy \/ TDrop \/ TQLogLik \/ TQPost \/ TQSite \/ TQD1 \/ TQD2
              \/ TQTPij \/ TQTMat \/ TQTEq
-TraceInit == InitFor("rescaled") /\ l = 1
+TraceInit == obj = [o \in {1} |-> InitRec("rescaled", 1)] /\ l = 1
 TraceSpec == TraceInit /\ [][TraceNext]_<<vars, l>>
 =============================================================================
